@@ -418,7 +418,7 @@ impl Check for C20 {
         }
     }
     fn rule(&self) -> String {
-        "configurations = the harness built against bpaf with {no features, autocomplete, autocomplete+docgen+batteries+derive, dull-color, bright-color}; definitions = conventional family (all kinds x all tails), general shapes, adjacent groups, alternatives, documented family (help texts, groups, hidden items) - nothing that needs the autocomplete API; inputs = every vector of the token tree (declared names, inline forms, words, `--`, unknown names, command names, --help) without completion markers; observation = value / stdout text (monochrome at the default width, Display at widths 40 and 100) / stderr text; every build digests the observations per definition and the digests of all five builds must be identical; on a mismatch both builds dump the definition and the first differing vector is reported; evaluation = one run in one build".into()
+        "configurations = the harness built against bpaf with {no features, autocomplete, autocomplete+docgen+batteries+derive, dull-color, bright-color}; definitions = conventional family (all kinds x all tails), general shapes, adjacent groups, alternatives, documented family (help texts, groups, hidden items) - nothing that needs the autocomplete API; inputs = every vector of the token tree (declared names, inline forms, words, `--`, unknown names, command names, --help) without completion markers; observation = value / stdout text (monochrome at the default width, Display at widths 40 and 100) / stderr text; every build digests the observations per definition and the digests of all five builds must be identical; on a mismatch both builds dump the definition and the first differing vector is reported; evaluation = one run in one build; plus env-backed flags typed while the variable is set, a command under fallback / fallback_with as a branch of a choice, the oddly placed commands of C10, rejected items holding control characters".into()
     }
     fn bounds(&self, tier: Tier) -> Value {
         json!({"builds": 5, "vector_length": "3 (2 for the 2-item conventional sample and the documented family)", "definitions": tier.pick("about 1500", "about 5000")})
